@@ -99,7 +99,7 @@ func fieldInvoke(ins ssa.Instruction, named *types.Named, field, name string) *s
 
 func runC10(c *core.Ctx) {
 	runFixtures(c, "drop", "read", "paging")
-	c.Explain("Structural clauses of C10 decided from source (thin: byte/metadata equality with the source is behaviour): (R10.1) in the cache FS's Open the source is opened for content only under the ErrNotExist edge of the cache look-up of the same name, every other look-up error returns; (R10.2) on every path after a successful fill the returned handle was rewound with a successful SeekFile(f, 0, SeekStart) or is re-opened from the cache; (R10.3) the memoised FileInfo stored in the info table is the result of Stat() on a handle obtained from the source, stored only on its nil-error edge, under the name it was asked for; (R10.4) the cache's directory handle lists through the source file system and stats through the same memoised Stat. (R10.5) the fill removes the cache file on every failing exit after creating it and reads the Close error of the file it wrote (a store that commits on Close can fail there) — otherwise a later Open is served a truncated copy that differs from the source. (R10.7) the table in which the fill marks a partial file it could not remove is consulted in Open before the cache look-up, and an entry leaves it only on paths on which Remove of the cache file answered nil or ErrNotExist; (R10.6) every direct Read call in package cache is a delegation or a loop left only on an error / a full buffer whose successful returns looked at the latest count (a source may legally return short counts; a hand-written copy that stops at the first short block caches a prefix). (R10.8) its Seek computes the cursor from the caller's offset; (R10.9) the fill runs once per freshly opened handle; (R10.10/R10.11) the cache copy is created with and chmod-ed to the source's mode. (R10.12) = R11.4 under C10; (R10.13) = R16.12 on the cache's directory handle. R10.4 also requires every alternative of the paged listing to be the source ReadDir of the same call. (R10.14) = R16.2 on the cache's directory handle; R10.7 also requires the mark to be read under the path lock. NOT claimed: that returned names, kinds, sizes, modes and bytes equal the source's; 'without reading the source again' beyond the ordering; the RetainData policy.")
+	c.Explain("Structural clauses of C10 decided from source (thin: byte/metadata equality with the source is behaviour): (R10.1) in the cache FS's Open the source is opened for content only under the ErrNotExist edge of the cache look-up of the same name, every other look-up error returns; (R10.2) on every path after a successful fill the returned handle was rewound with a successful SeekFile(f, 0, SeekStart) or is re-opened from the cache; (R10.3) the memoised FileInfo stored in the info table is the result of Stat() on a handle obtained from the source, stored only on its nil-error edge, under the name it was asked for; (R10.4) the cache's directory handle lists through the source file system and stats through the same memoised Stat. (R10.5) the fill removes the cache file on every failing exit after creating it and reads the Close error of the file it wrote (a store that commits on Close can fail there) — otherwise a later Open is served a truncated copy that differs from the source. (R10.7) the table in which the fill marks a partial file it could not remove is consulted in Open before the cache look-up, and an entry leaves it only on paths on which Remove of the cache file answered nil or ErrNotExist; (R10.6) every direct Read call in package cache is a delegation or a loop left only on an error / a full buffer whose successful returns looked at the latest count (a source may legally return short counts; a hand-written copy that stops at the first short block caches a prefix). (R10.8) its Seek computes the cursor from the caller's offset; (R10.9) the fill runs once per freshly opened handle; (R10.10/R10.11) the cache copy is created with and chmod-ed to the source's mode. (R10.12) = R11.4 under C10; (R10.13) = R16.12 on the cache's directory handle. R10.4 also requires every alternative of the paged listing to be the source ReadDir of the same call. (R10.14) = R16.2 on the cache's directory handle; R10.7 also requires the mark to be read under the path lock. (R10.15) the retention policy receives Open's own name. NOT claimed: that returned names, kinds, sizes, modes and bytes equal the source's; 'without reading the source again' beyond the ordering; the RetainData policy.")
 	c.Assume("A1: FS contract of source and cache file systems")
 	c.RuleDoc("R10.1", "cache look-up before source; only ErrNotExist falls through")
 	c.RuleDoc("R10.2", "handle returned after a fill starts at offset 0")
@@ -107,6 +107,7 @@ func runC10(c *core.Ctx) {
 	c.RuleDoc("R10.4", "directory handle lists the source")
 	c.RuleDoc("R10.5", "a copy that was not written and closed successfully does not stay in the cache")
 	c.RuleDoc("R10.12", "the fill uses no buffer kept in the file system value (= R11.4)")
+	c.RuleDoc("R10.15", "the retention policy is asked about the name that was opened")
 	c.RuleDoc("R10.14", "the cache directory handle's page window lies inside the listing for every cursor (= R16.2)")
 	c.RuleDoc("R10.13", "the cache directory handle moves its cursor by exactly the page it returns (= R16.12)")
 	c.RuleDoc("R10.11", "the cache copy is chmod-ed with the source's whole mode")
@@ -143,6 +144,7 @@ func runC10(c *core.Ctx) {
 		// R10.12 (= R11.4): the fill copies through a buffer of its own — a buffer kept in the FS value is shared by the
 		// fills of different names, which run concurrently: a cached copy then holds another file's bytes
 		r11NoSharedBuffer(c, p, sh, "R10.12")
+		r10PolicyAskedAboutTheName(c, p, sh)
 	}
 	c.Floor("R10.5", 2)
 	c.Floor("R10.7", 2)
@@ -151,6 +153,7 @@ func runC10(c *core.Ctx) {
 	c.Floor("R10.10", 1)
 	c.Floor("R10.11", 1)
 	c.Floor("R10.12", 1)
+	c.Floor("R10.15", 1)
 	c.Floor("R10.13", 1)
 	c.Floor("R10.14", 1)
 	c.Floor("R10.1", 1)
@@ -971,4 +974,42 @@ func r10LookupBeforeSource(c *core.Ctx, p *load.Program, sh *cacheShape, rule st
 		c.Check(ok && sameName, rule, key, p.Pos(srcOpen.Pos()), "source opened only when the cache look-up of the same name answered ErrNotExist",
 			fmt.Sprintf("%s.Open opens the source without being on the ErrNotExist edge of the cache look-up of the same name (dominated=%v same-name=%v): a cached file would be re-read from the source, or another look-up failure would be papered over", tk, ok, sameName))
 	}
+}
+
+// r10PolicyAskedAboutTheName (R10.15): every call of a func-typed field (the RetainData policy: func(name, info) bool) in
+// the cache's Open receives the name Open was called with as its name argument — info.Name() is the base name, so a
+// policy keyed by path ("retain everything under assets/") decides about a different file, and which opens are served
+// from the cache (and so never read the source again) is no longer the policy's choice.
+func r10PolicyAskedAboutTheName(c *core.Ctx, p *load.Program, sh *cacheShape) {
+	if len(sh.open.Params) < 2 {
+		return
+	}
+	nameP := sh.open.Params[1]
+	n := 0
+	for _, b := range opBodies(sh.open) {
+		np := b.param(nameP)
+		ssax.Instrs(b.fn, func(ins ssa.Instruction) {
+			cl, ok := ins.(*ssa.Call)
+			if !ok || cl.Call.IsInvoke() || ssax.StaticCallee(cl) != nil {
+				return
+			}
+			if _, _, isField := ssax.FieldLoad(cl.Call.Value); !isField {
+				return
+			}
+			sig := cl.Call.Signature()
+			if sig.Params().Len() < 1 || !isStringType(sig.Params().At(0).Type()) {
+				return
+			}
+			n++
+			arg := resolveSpilled(cl.Call.Args[0], cl)
+			ok2 := np != nil && arg == ssa.Value(np)
+			c.Check(ok2, "R10.15", fmt.Sprintf("%s|policy-call#%d-name-argument", fname(b.fn), n), p.Pos(cl.Pos()), "the policy receives Open's own name",
+				fmt.Sprintf("the retention policy is called at %s with a name that is not the one Open was asked for (a base name, a cleaned or derived string): a policy that decides by path retains or skips the wrong files", p.Pos(cl.Pos())))
+		})
+	}
+}
+
+func isStringType(t types.Type) bool {
+	b, ok := t.Underlying().(*types.Basic)
+	return ok && b.Kind() == types.String
 }
